@@ -439,7 +439,7 @@ type serverConn struct {
 	pushEnabled                 bool
 	sawClientPreface            bool // preface has already been read, used in h2c upgrade
 	sawFirstSettings            bool // got the initial SETTINGS frame after the preface
-	needToSendSettingsAck       bool
+	needToSendSettingsAck       int
 	unackedSettings             int    // how many SETTINGS have we sent without ACKs?
 	queuedControlFrames         int    // control frames in the writeSched queue
 	clientMaxStreams            uint32 // SETTINGS_MAX_CONCURRENT_STREAMS from client (our PUSH_PROMISE limit)
@@ -1281,8 +1281,8 @@ func (sc *serverConn) scheduleFrameWrite() {
 			})
 			continue
 		}
-		if sc.needToSendSettingsAck {
-			sc.needToSendSettingsAck = false
+		if sc.needToSendSettingsAck > 0 {
+			sc.needToSendSettingsAck--
 			sc.startFrameWrite(FrameWriteRequest{write: writeSettingsAck{}})
 			continue
 		}
@@ -1628,9 +1628,11 @@ func (sc *serverConn) processSettings(f *SettingsFrame) error {
 	if err := f.ForeachSetting(sc.processSetting); err != nil {
 		return err
 	}
-	// TODO: judging by RFC 7540, Section 6.5.3 each SETTINGS frame should be
-	// acknowledged individually, even if multiple are received before the ACK.
-	sc.needToSendSettingsAck = true
+	// RFC 9113, Section 6.5.3: each SETTINGS frame is acknowledged
+	// individually, even if several are received before an ACK can be
+	// written. Pending ACKs are counted, not queued: they take no memory
+	// and are written one at a time by scheduleFrameWrite.
+	sc.needToSendSettingsAck++
 	sc.scheduleFrameWrite()
 	return nil
 }
